@@ -461,6 +461,7 @@ pub fn property() -> Property {
         rule: "Exhaustive enumeration. (i) all 8x16x2 (race, tribe, gender): get_supported_tribes partitions the 16 tribes into 8 disjoint pairs with race r owning tribe codes {2r-1, 2r} (structural oracle, no name table); get_race_id is Some exactly for own tribes; race codes injective over body types (race x gender, Hyur split by tribe). (ii) skeleton, equipment (10 slots x ids 0..9999 x 32 valid triples) and character (5 categories x 404 body versions) paths built without panic, of the documented form, pairwise distinct whenever inputs differ; deconstruct_equipment_path(file name) = (id, slot) for all 100 000 (id, slot). (iii) every permutation of every repository set of <= 7 members drawn from {base, ex1..ex5, ex9} (13 700 orderings; thorough: from all ten, 792 k) sorts to base then expansions by number; on-disk discovery with directories created in shuffled orders. (iv) for all 15x10x10x5x8 (category, expansion, chunk, platform, dat) the index/index2/dat names equal the documented pattern AND the set of files ZiPatch::apply creates for AddData/HeaderUpdate with main=category, sub=exp<<8|chunk, that file id and target platform. evaluations counts individual elements; non-trivial = valid triple / each (id, slot) / permutation of >= 2 members / file name with expansion >= 1, chunk >= 1 or platform != win32.",
         assumptions: &["tribe and race enums carry their game codes; tribe codes are allocated in race order"],
         pre: None,
+        post: None,
         parts: vec![Box::new(Part { name: "exhaustive", driver: Driver::Enum(jobs), prop, exhaustive: true })],
     }
 }
